@@ -7,6 +7,7 @@ import (
 	"go/token"
 	"os"
 	"path/filepath"
+	"reflect"
 	"sort"
 	"strings"
 )
@@ -92,8 +93,11 @@ func instrumentTree(root string) (points int, files int, err error) {
 			}
 		}
 		chanNames = map[string]bool{}
-		for _, af := range parsed {
-			collectChanNames(af, chanNames)
+		chanFuncs = map[string][]int{}
+		for pass := 0; pass < 2; pass++ { // twice: a function declared in a later file is known by then
+			for _, af := range parsed {
+				collectChanNames(af, chanNames)
+			}
 		}
 		for i, f := range fl {
 			n, out, err := instrumentFile(fset, parsed[i], srcs[i], pkgVars)
@@ -120,6 +124,9 @@ func instrumentTree(root string) (points int, files int, err error) {
 // simulation hangs and the watchdog reports infrastructure trouble, never a
 // verdict.)
 var chanNames = map[string]bool{}
+
+// chanFuncs: functions of the package being instrumented -> positions of their channel-typed results
+var chanFuncs = map[string][]int{}
 
 func collectChanNames(af *ast.File, set map[string]bool) {
 	isChanType := func(e ast.Expr) bool {
@@ -151,6 +158,53 @@ func collectChanNames(af *ast.File, set map[string]bool) {
 		}
 		return ""
 	}
+	// functions (and methods, by name) of the package whose i-th result is a channel
+	for _, d := range af.Decls {
+		fd, ok := d.(*ast.FuncDecl)
+		if !ok || fd.Type.Results == nil {
+			continue
+		}
+		pos := 0
+		for _, f := range fd.Type.Results.List {
+			k := len(f.Names)
+			if k == 0 {
+				k = 1
+			}
+			for j := 0; j < k; j++ {
+				if isChanType(f.Type) {
+					chanFuncs[fd.Name.Name] = append(chanFuncs[fd.Name.Name], pos)
+				}
+				pos++
+			}
+		}
+	}
+	chanResult := func(e ast.Expr, i int) bool {
+		c, ok := e.(*ast.CallExpr)
+		if !ok {
+			return false
+		}
+		for _, p := range chanFuncs[nameOf(c.Fun)] {
+			if p == i {
+				return true
+			}
+		}
+		return false
+	}
+	ast.Inspect(af, func(x ast.Node) bool {
+		switch v := x.(type) {
+		case *ast.AssignStmt:
+			if len(v.Rhs) == 1 && len(v.Lhs) >= 1 {
+				for i, l := range v.Lhs {
+					if chanResult(v.Rhs[0], i) {
+						if n := nameOf(l); n != "" && n != "_" {
+							set[n] = true
+						}
+					}
+				}
+			}
+		}
+		return true
+	})
 	ast.Inspect(af, func(x ast.Node) bool {
 		switch v := x.(type) {
 		case *ast.ValueSpec:
@@ -307,7 +361,47 @@ func instrumentFile(fset *token.FileSet, af *ast.File, src []byte, pkgVars map[s
 			})
 		}
 		switch s := st.(type) {
-		case *ast.BlockStmt, *ast.IfStmt, *ast.ForStmt, *ast.RangeStmt, *ast.SwitchStmt, *ast.TypeSwitchStmt, *ast.SelectStmt, *ast.LabeledStmt:
+		case *ast.IfStmt:
+			// the init statement and the condition are evaluated once, in front
+			// of the body: their receives wait in front of the whole statement
+			if s.Init != nil {
+				visit(s.Init, true)
+			}
+			visit(s.Cond, true)
+		case *ast.SwitchStmt:
+			if s.Init != nil {
+				visit(s.Init, true)
+			}
+			if s.Tag != nil {
+				visit(s.Tag, true)
+			}
+		case *ast.TypeSwitchStmt:
+			if s.Init != nil {
+				visit(s.Init, true)
+			}
+		case *ast.ForStmt:
+			if s.Init != nil {
+				visit(s.Init, true)
+			}
+			for _, part := range []ast.Node{s.Cond, s.Post} {
+				if part == nil || reflect.ValueOf(part).IsNil() {
+					continue
+				}
+				ast.Inspect(part, func(x ast.Node) bool {
+					switch u := x.(type) {
+					case *ast.FuncLit:
+						return false
+					case *ast.UnaryExpr:
+						if u.Op == token.ARROW {
+							note(u.Pos(), "a channel receive in the condition or post statement of a for loop")
+						}
+					case *ast.SendStmt:
+						note(u.Pos(), "a channel send in the post statement of a for loop")
+					}
+					return true
+				})
+			}
+		case *ast.BlockStmt, *ast.RangeStmt, *ast.SelectStmt, *ast.LabeledStmt:
 			_ = s // compound statements: their inner simple statements are visited through their own lists
 		default:
 			visit(st, true)
@@ -576,7 +670,7 @@ func instrumentFile(fset *token.FileSet, af *ast.File, src []byte, pkgVars map[s
 					}
 				}
 				if !hasDefault {
-					bad := false
+					var conts []*ast.BranchStmt
 					var walk func(n ast.Node, inLoop bool)
 					walk = func(n ast.Node, inLoop bool) {
 						ast.Inspect(n, func(x ast.Node) bool {
@@ -595,16 +689,23 @@ func instrumentFile(fset *token.FileSet, af *ast.File, src []byte, pkgVars map[s
 								}
 							case *ast.BranchStmt:
 								if b.Tok == token.CONTINUE && b.Label == nil && !inLoop {
-									bad = true
+									conts = append(conts, b)
 								}
 							}
 							return true
 						})
 					}
 					walk(v.Body, false)
-					if bad {
-						note(v.Pos(), "a blocking select containing an unlabelled continue")
-						break
+					// An unlabelled continue inside a case means the loop AROUND the
+					// select; inside the polling loop it would mean the polling loop.
+					// It becomes: set a flag, leave the polling loop by its label, and
+					// continue from behind it.
+					contFlag, contLabel := "", ""
+					if len(conts) > 0 {
+						contFlag, contLabel = fmt.Sprintf("zzc%d", off(v.Pos())), fmt.Sprintf("zzl%d", off(v.Pos()))
+						for _, b := range conts {
+							ins = append(ins, insertion{off(b.Pos()), "{ " + contFlag + " = true; break " + contLabel + " }", off(b.End()) - off(b.Pos())})
+						}
 					}
 					// If every case ends by leaving the function, the select is a
 					// terminating statement and so must its replacement be (else
@@ -700,13 +801,22 @@ func instrumentFile(fset *token.FileSet, af *ast.File, src []byte, pkgVars map[s
 					if len(chanTexts) > 0 {
 						ins = append(ins, insertion{target, "zzsimrt.SelectCheck(" + strings.Join(chanTexts, ", ") + "); ", 0})
 					}
-					ins = append(ins, insertion{off(v.Pos()), "for { ", 0})
+					if contFlag != "" {
+						ins = append(ins, insertion{target, contFlag + " := false; ", 0})
+						ins = append(ins, insertion{off(v.Pos()), contLabel + ": for { ", 0})
+					} else {
+						ins = append(ins, insertion{off(v.Pos()), "for { ", 0})
+					}
+					tail := ""
+					if contFlag != "" {
+						tail = "; if " + contFlag + " { continue }"
+					}
 					if allLeave {
 						ins = append(ins, insertion{off(v.Body.Rbrace), "default: zzsimrt.Blocked(); ", 0})
-						ins = append(ins, insertion{off(v.Body.Rbrace) + 1, " }", 0})
+						ins = append(ins, insertion{off(v.Body.Rbrace) + 1, " }" + tail, 0})
 					} else {
 						ins = append(ins, insertion{off(v.Body.Rbrace), "default: zzsimrt.Blocked(); continue; ", 0})
-						ins = append(ins, insertion{off(v.Body.Rbrace) + 1, "; break }", 0})
+						ins = append(ins, insertion{off(v.Body.Rbrace) + 1, "; break }" + tail, 0})
 					}
 					points++
 				}
